@@ -442,8 +442,8 @@ def plan_c05(tier, seed):
         # 2. every key duplicated => InvalidCbor
         for p, n in maps:
             for k, v in n.entries:
-                kk = k.describe()
-                faults.append(("dup_%s_%s" % (pname(p), "".join(c if c.isalnum() else "_" for c in kk)), 0x12,
+                kk = pname((KeyRef(k),))
+                faults.append(("dup_%s_%s" % (pname(p), kk), 0x12,
                                "key %s of %s duplicated" % (kk, pdesc(p)),
                                (lambda p=p, k=k: (lambda t: dup_entry(t, list(p), k)))()))
         # 3. non-minimal heads
@@ -1004,7 +1004,11 @@ def plan_c14(tier, seed):
              ("es256", "es256", "eddsa"), ("unkalg", "eddsa", "unktype", "es256", "eddsa"), ("es256", "eddsa", "es256", "unkalg"),
              ("eddsa", "eddsa", "eddsa", "unktype", "es256")]
     unk_classes = [(1, 1), (2, 1), (4, 1), (1, 0), (2, 0), (4, 0)]
+    seen_lists = set()
     for i, kinds in enumerate(lists + extra):
+        if tuple(kinds) in seen_lists:
+            continue
+        seen_lists.add(tuple(kinds))
         cls = unk_classes[(i + seed) % len(unk_classes)]
         var = Variation(choose={"filteredparams": list(kinds), "filteredparams#unk": cls}, seed=seed)
         nm = "c14_params_%s" % ("_".join(k[:3] + k[-1] for k in kinds) if len(kinds) <= 6 else "long%d_%d" % (len(kinds), i))
@@ -1741,7 +1745,7 @@ fn c16_large_blob_constant() {
     r.config = Some(ctap_types::Bytes::new());
     let mut b2 = [0u8; 8];
     let o2 = cbor_serialize(&r, &mut b2).unwrap();
-    assert!(o2.len() == 3 && o2[0] == 0xa1 && o2[1] == 0x01 && o2[2] == 0x40, "empty config: {1: h\\'\\'}");
+    assert!(o2.len() == 3 && o2[0] == 0xa1 && o2[1] == 0x01 && o2[2] == 0x40, "empty config encodes as the map 1 => empty byte string");
     kani::cover!(true, "reached");
 }
 '''
